@@ -1,4 +1,5 @@
 import ExprModel.Spec.Eval
+import ExprModel.Opt.Driver
 import ExprModel.Drv.Code
 /- driver stage `speceval`: the reference evaluator on a (typed) tree -/
 namespace ExprModel.Drv
@@ -9,6 +10,40 @@ def specOutcome (r : R Val × Spec.SState) : Sexp :=
   match res with
   | .ok v => .list [.atom "ok", v.toSexp, Sexp.int s.memory, Sexp.nat s.created, logToSexp s.log]
   | .error e => .list [.atom "err", .atom e.name, Sexp.int s.memory, Sexp.nat s.created, logToSexp s.log]
+
+/-! ### refusing absurd ranges
+`Spec.eval` builds the elements of a range before it checks the budget (the order is part of what the
+refinement proofs unfold), so the *driver* refuses trees in which a range could have more than 2e6
+elements instead of building it: literal bounds (after the model's constant folding) too far apart, or a
+bound taken from an environment that contains an integer beyond ±2e6. -/
+
+partial def hugeRange (dynHuge : Bool) : Node → Bool
+  | .binary _ op l r =>
+    (op == ".." && (match l, r with
+      | .int _ a, .int _ b => b - a > 2000000
+      | .int _ a, _ => dynHuge || a < -2000000
+      | _, .int _ b => dynHuge || b > 2000000
+      | _, _ => dynHuge)) || hugeRange dynHuge l || hugeRange dynHuge r
+  | .unary _ _ x | .prop _ x _ _ | .closure _ x => hugeRange dynHuge x
+  | .matches _ _ l r | .index _ l r | .pair _ l r => hugeRange dynHuge l || hugeRange dynHuge r
+  | .slice _ x f t => hugeRange dynHuge x || (f.map (hugeRange dynHuge)).getD false || (t.map (hugeRange dynHuge)).getD false
+  | .method _ x _ args _ => hugeRange dynHuge x || args.any (hugeRange dynHuge)
+  | .func _ _ args _ | .builtin _ _ args | .array _ args | .map _ args => args.any (hugeRange dynHuge)
+  | .cond _ a b d => hugeRange dynHuge a || hugeRange dynHuge b || hugeRange dynHuge d
+  | _ => false
+
+partial def valHasHugeInt : Val → Bool
+  | .int _ n => n > 2000000 || n < -2000000
+  | .arr _ xs | .set _ xs => xs.any valHasHugeInt
+  | .map kvs | .struct _ _ kvs => kvs.any fun kv => valHasHugeInt kv.2
+  | _ => false
+
+/-- constant bounds become literals under the model's fold pass; the scan is done on the folded tree -/
+def refuseRange (env : Val) (n : Node) : Bool :=
+  let folded := match Opt.repeatPass true (Opt.foldRule Opt.Flags.asWas (mkWorld [])) Opt.foldWalks n with
+    | .ok n' => n'
+    | .error _ => n
+  hugeRange (valHasHugeInt env) folded
 
 /-- `(speceval <budget> (flags <rangeSigned> <sliceToFirst>) <cast|_> <env> <node>)` -/
 def handleSpec : List Sexp → Sexp
@@ -21,6 +56,7 @@ def handleSpec : List Sexp → Sexp
         | "int64" => some 0
         | "float64" => some 1
         | _ => none
+      if refuseRange env n then .list [.atom "refused", .atom "huge-range"] else
       specOutcome (Spec.run c cst n)
     | _, _, _ => .list [.atom "bad-request"]
   | _ => .list [.atom "bad-request"]
